@@ -1339,6 +1339,8 @@ class ContactHandler(Messenger, dbus.service.Object):
 
             self._modulate_tx_seg_size(delta_b, delta_t)
 
+        if transfer_id not in self._tx_map:
+            raise RejectError(messages.RejectMsg.Reason.UNEXPECTED)
         item = self._tx_map[transfer_id]
         item.ack_length = length
         if flags & messages.TransferSegment.Flag.END:
